@@ -165,7 +165,9 @@ def param_defects(p: dict, indent: int | None, lang: str | None = None) -> list[
 # ---------------------------------------------------------------------------------------------------------------------
 # generators
 # ---------------------------------------------------------------------------------------------------------------------
-SAFE = ["a", "b", "n", "x y", "é", "日", ",", ")", "(", "{", "}", "=", ";", "//", "/*", "*/", "0", "\t", "ß", "#"]
+# (the last two: a LINE of a multi-line string that reads like a source-file attribute - text inside a literal is never one)
+SAFE = ["a", "b", "n", "x y", "é", "日", ",", ")", "(", "{", "}", "=", ";", "//", "/*", "*/", "0", "\t", "ß", "#",
+        "//?: is-ssb-script: true", "//?: is-ssb-script: 1"]
 QUOTES = ["'", '"', "''", '""', "'''", '"""', "''''", "'\"'"]
 NASTY = ["\\", "\\\\", "\\n", "\\'", '\\"', "\r", "\f", "\v", "\x85", "\u2028", "\u2029", "\x1c", "\x1d", "\x1e", "\r\n"]
 BLANKS = ["", " ", "  ", "    ", "        ", "   "]
@@ -213,7 +215,7 @@ def gen_string(r: random.Random) -> str:
 
 
 CORPUS_STRINGS = [
-    "", "a", "it's", 'say "x"', "a\\", "a\\b", "x\\ny", "a\\'b", 'a\\"b', "a\\\\'b", "a\rb", "a\fb", "a\\\rb", "a\vb", "a\x85b",
+    "x\n//?: is-ssb-script: true\ny", "//?: is-ssb-script: true\nsecond line", "", "a", "it's", 'say "x"', "a\\", "a\\b", "x\\ny", "a\\'b", 'a\\"b', "a\\\\'b", "a\rb", "a\fb", "a\\\rb", "a\vb", "a\x85b",
     " a\n b", "a\n", "a\n ", "a\n\n", "\n", "\na", " \n", "a\rb\nc", "a\vb\nc", "a\x85b\nc", "a\u2028b\nc", "a\x1cb\nc",
     "'''\n\"\"\"", "'''\n\"\"\"\\", "'''\n\"\"\"\\n", "'''\n\"\"\"\\\n", "'''\nx", '"""\nx', "a\\\nb", "\ta\n\tb", "a\n  ",
     "  a\n\n  b", "''\nb", "a''\nb", "a'\n'b", "First Line\nSecond Line\n  Some indentation in the third line\nFourth Line",
